@@ -925,6 +925,11 @@ REGRESS = [
     # concatenated literals take the prefix of whichever part has one
     ('unsigned short r31[] = u"ab" "cd";', 'r31', None),
     ('struct W32 { int w[6]; unsigned short h[4]; }; struct W32 r32 = { L"ab" "c", "x" u"y" };', 'r32', None),
+    # an override of the element right after a string literal's terminator, and further on
+    ('struct S35 { char s[8]; } r35 = { "abc", .s[4] = \'x\' };', 'r35', None),
+    ('struct S36 { unsigned s[8]; } r36 = { U"abcde", .s[6] = 1, .s[7] = 2 };', 'r36', None),
+    ('struct S37 { unsigned short s[6]; } r37 = { u"ab", .s[3] = 7 };', 'r37', None),
+    ('struct S38 { char s[6]; } r38 = { "a", .s[2] = 1, .s[3] = 2, .s[4] = 3 };', 'r38', None),
     # objects declared before their type is complete: image, size and alignment of the completed type
     ('struct L17 r17; struct L17 { long a; char c; }; struct L17 r17 = { 5, 6 };', 'r17', None),
     ('union L18 r18; union L18 { char c[3]; int i; };', 'r18', None),
